@@ -31,7 +31,7 @@ def run_check(prop, plan, tier, seed, replay, t0):
     for b in broken_tables:
         problems.append(f"generated table {b['table']} no longer parses: {b['why']}")
     # 2. Lean: build the property's theorems and the model driver
-    modules = plan.get("theorem_modules", [f"MinaProofs.Props.{prop}"])
+    modules = plan.get("theorem_modules", [f"MinaProofs.Props.{m}" for m in prop_modules(prop)])
     targets = list(modules) + ["mina_model"]
     if tier == "thorough":
         targets += plan.get("kernel_modules", [])
